@@ -297,6 +297,76 @@ def analyse(ck, prog, name, unit, report, ck_floor=True):
     return dict(bounds_obligations=nB, continuation_pairs=nT, delimiter_limit_exits=nD, stores_into_string=nZ, token_returns=nP, continuation_steps=nQ, delimiter_comparisons=nE, cursor_advancing_loops=nS)
 
 
+def error_exit_rule(prog, name, report):
+    """clause 'the sequence ends with an error': every exit of a tokenizer that reports through the constraint handler hands back a null
+    pointer -- a non-null result would be taken for a token.  Each block that calls the dispatch (or an error helper) is followed over its
+    unconditional edges to the return; the value returned on that path must be the null constant, or a value the path has compared equal
+    to null (a dominating `v == NULL` edge).  Returns the number of reporting exits judged."""
+    fn = prog.funcs.get(name)
+    if fn is None:
+        return 0
+    n = 0
+    for bb in fn.blocks:
+        calls = [i for i in fn.blocks[bb]["insts"] if i["op"] == "call" and ((i.get("callee") or "") in api.HANDLER_DISPATCH or (i.get("callee") or "").startswith(("handle_error", "handle_werror", "invoke_safe_")))]
+        if not calls:
+            continue
+        cur, prev, hops = bb, None, 0
+        while hops < 8:
+            t = fn.term(cur)
+            if t["op"] == "ret":
+                break
+            if t["op"] != "br" or "cond" in t:
+                cur = None
+                break
+            prev, cur = cur, t["t"]
+            hops += 1
+        if cur is None or fn.term(cur)["op"] != "ret" or not fn.term(cur).get("ops"):
+            continue
+        n += 1
+        v = fn.term(cur)["ops"][0]
+        d = fn.defs.get(v.get("id")) if v.get("k") == "v" else None
+        if d is not None and d["op"] == "phi" and d["_bb"] == cur and prev is not None:
+            v = next((x["v"] for x in d["incoming"] if x["bb"] == prev), v)
+        if v.get("k") == "null":
+            continue
+        ok = False
+        if v.get("k") == "v":
+            # a dominating branch whose taken side implies `v == NULL` (directly, through `!v`, or as the last operand of an `a && !v` merge)
+            for tb in fn.blocks:
+                t = fn.term(tb)
+                if t["op"] != "br" or "cond" not in t or t["cond"].get("k") != "v":
+                    continue
+                c, neg, only_true = fn.defs.get(t["cond"]["id"]), False, False
+                for _ in range(4):
+                    if c is None:
+                        break
+                    if c["op"] == "phi" and c["ty"] == "i1":
+                        live = [x["v"] for x in c["incoming"] if not (x["v"].get("k") == "c" and not x["v"].get("v"))]
+                        if len(live) != 1 or live[0].get("k") != "v":
+                            c = None
+                            break
+                        c, only_true = fn.defs.get(live[0]["id"]), True
+                    elif c["op"] == "xor" and c["ops"][1].get("k") == "c" and c["ops"][0].get("k") == "v":
+                        c, neg = fn.defs.get(c["ops"][0]["id"]), not neg
+                    else:
+                        break
+                if c is None or c["op"] != "icmp" or c["pred"] not in ("eq", "ne") or not any(o.get("id") == v["id"] for o in c["ops"]) or not any(o.get("k") == "null" for o in c["ops"]):
+                    continue
+                iseq = (c["pred"] == "eq") != neg          # the condition is true exactly when v == NULL?
+                if only_true and not iseq:
+                    continue                                # a merge says something only on its true side
+                nullside = t["t"] if iseq else t["f"]
+                other = t["f"] if iseq else t["t"]
+                if fn.dominates(nullside, bb) and not fn.dominates(other, bb):
+                    ok = True
+        if not ok:
+            msg = next((a for c in calls for a in [c] ), calls[0])
+            report("C14:error-exit-returns-a-pointer:%s:%s" % (api.base_name(name), (v.get("id") or "?").lstrip("%")), "X-error-exit-returns-null", fn.loc(calls[0]),
+                   "%s reports a violation through the handler at line %s and then returns %s, which is not known to be null on that path: the caller takes it for a token"
+                   % (api.base_name(name), calls[0].get("line"), v.get("id") or v))
+    return n
+
+
 def run(ck):
     mods, info = frontend.load_modules()
     prog = Program(mods)
@@ -304,6 +374,11 @@ def run(ck):
     for name, unit in FUNCS.items():
         per[api.base_name(name)] = analyse(ck, prog, name, unit, ck.report)
         ck.sample(dict(function=api.base_name(name), **per[api.base_name(name)]))
+    for name in FUNCS:
+        nx = error_exit_rule(prog, name, ck.report)
+        per[api.base_name(name)]["reporting_exits_returning_null"] = nx
+        if nx < 5:
+            ck.fail_broken("%s: only %d exits that report through the handler found (< 5)" % (name, nx))
     fx = selftest(ck)
     tot = sum(sum(v.values()) for v in per.values() if v)
     if tot < 30:
@@ -331,4 +406,10 @@ def selftest(ck):
         out[name] = dict(continuation_steps=r.get("continuation_steps"), rule_Q_reports=len(q), other=[k for k in got if k not in q][:3])
         if sk.broken or not r.get("continuation_steps") or bool(q) != want:
             ck.fail_broken("fixture c14.c:%s: rule Q %s (%s)" % (name, "did not fire" if want else "fired on conforming code", sk.broken or got))
+    for name, want in (("fx14_err_null", 0), ("fx14_err_ptr", 1)):
+        got = []
+        nx = error_exit_rule(prog, name, lambda key, *a, **k: got.append(key))
+        out[name] = dict(reporting_exits=nx, reports=got)
+        if len(got) != want or nx < 1:
+            ck.fail_broken("fixture c14.c:%s: error-exit rule reported %s over %d exits" % (name, got, nx))
     return out
